@@ -112,3 +112,36 @@ Section Verify.
     | es => Multiple es
     end.
 End Verify.
+
+(* ---- vocabulary for the GENERATED transcription (Gen/VerifyKernel.v) ----
+   harness/translate/verify_kernel.py re-derives _verify / _verify_element / verifyClass /
+   verifyObject / fromMethod from the source text; every Python test on an object becomes one of
+   the predicates below, whose value on the candidate description is what this framework means
+   by the description (validated on every run: the driver classifies the real attribute with
+   the same Python tests and the harness aborts on a mismatch). *)
+
+Definition vtype_is_c (vt : vtype) : bool := match vt with VClass => true | VObject => false end.     (* vtype == 'c' *)
+Definition vtype_is_o (vt : vtype) : bool := match vt with VClass => false | VObject => true end.     (* vtype == 'o' *)
+Definition desc_is_method (d : desc) : bool := match d with DMethod _ => true | DAttr => false end.   (* isinstance(desc, Method) *)
+Definition desc_sig (d : desc) : sig :=                                                               (* desc.getSignatureInfo() *)
+  match d with DMethod s => s | DAttr => mkSig 0 0 false false end.
+Definition getattr_raises (a : attr_val) : bool := match a with VMissing => true | _ => false end.    (* getattr(...) raises AttributeError *)
+Definition attr_ismethoddescriptor (a : attr_val) : bool := match a with VBuiltin => true | _ => false end.
+Definition attr_isbuiltin (a : attr_val) : bool := match a with VBuiltin => true | _ => false end.
+Definition attr_is_FunctionType (a : attr_val) : bool := match a with VFunction _ => true | _ => false end.
+Definition attr_is_MethodTypes (a : attr_val) : bool := match a with VMethod _ => true | _ => false end.
+Definition attr_func_is_FunctionType (a : attr_val) : bool := match a with VMethod _ => true | _ => false end.  (* type(attr.__func__) is FunctionType *)
+Definition attr_is_property (a : attr_val) : bool := match a with VProperty => true | _ => false end.
+Definition attr_callable (a : attr_val) : bool :=
+  match a with VFunction _ | VMethod _ | VBuiltin | VCallable => true | VMissing | VProperty | VOther => false end.
+Definition attr_raw (a : attr_val) : sig :=                                                            (* the def behind attr / attr.__func__ *)
+  match a with VFunction raw | VMethod raw => raw | _ => mkSig 0 0 false false end.
+
+(*   for name, desc in iface.namesAndDescriptions(all=True):
+         try: f(name, desc)  except Invalid as e: excs.append(e)            *)
+Definition collect (f : elem -> option err) (elems : list elem) (excs : list err) : list err :=
+  fold_left (fun acc e => match f e with Some x => acc ++ [x] | None => acc end) elems excs.
+
+Definition is_nil {A} (l : list A) : bool := match l with [] => true | _ => false end.
+(* excs[0] of a list known to be non-empty *)
+Definition first_err (l : list err) : err := hd EDoesNotImplement l.
